@@ -53,7 +53,7 @@ type bcase struct {
 func sdfRef(f func(c3) float64, thr, band float64) refFn {
 	return func(p c3) (bool, bool) {
 		d := f(p)
-		return d > thr, math.Abs(d-thr) > band
+		return d > thr, !(math.Abs(d-thr) <= band)
 	}
 }
 
@@ -226,7 +226,7 @@ func derived3(full bool) []leaf3 {
 			rad := rad
 			add(fmt.Sprintf("NewColliderSolidHollow(%s,%g)", s.Name, rad), model3d.NewColliderSolidHollow(obj, rad), func(p c3) (bool, bool) {
 				d := math.Abs(s.SDF(p))
-				return d < rad, math.Abs(d-rad) > band
+				return d < rad, !(math.Abs(d-rad) <= band)
 			})
 		}
 		for _, o := range []float64{0, 0.2, -0.1} {
@@ -248,7 +248,7 @@ func derived3(full bool) []leaf3 {
 		add("NewColliderSolidInset(mesh "+nm.Name+",-0.2)", model3d.NewColliderSolidInset(coll, -0.2), sdfRef(f, -0.2, 1e-7))
 		add("NewColliderSolidHollow(mesh "+nm.Name+",0.1)", model3d.NewColliderSolidHollow(coll, 0.1), func(p c3) (bool, bool) {
 			d := math.Abs(f(p))
-			return d < 0.1, math.Abs(d-0.1) > 1e-7
+			return d < 0.1, !(math.Abs(d-0.1) <= 1e-7)
 		})
 		add("SDFToSolid(MeshToSDF "+nm.Name+",0.15)", model3d.SDFToSolid(model3d.MeshToSDF(m), 0.15), sdfRef(f, -0.15, 1e-7))
 	}
@@ -319,7 +319,7 @@ func derived3(full bool) []leaf3 {
 				for _, m := range ms {
 					sum += model3d.QuarticMetaballFalloffFunc(m.MetaballField(p))
 				}
-				return sum > thr, math.Abs(sum-thr) > 1e-9*thr
+				return sum > thr, !(math.Abs(sum-thr) <= 1e-9*thr)
 			})
 		}
 	}
@@ -330,7 +330,7 @@ func derived3(full bool) []leaf3 {
 		o2 := s2.Obj.(model2d.Solid)
 		add("ProfileSolid("+s2.Name+",-0.5,1.25)", model3d.ProfileSolid(o2, -0.5, 1.25), func(p c3) (bool, bool) {
 			d := s2.SDF(p.XY())
-			return d > 0 && p.Z >= -0.5 && p.Z <= 1.25, math.Abs(d) > 1e-9 && math.Abs(p.Z+0.5) > 1e-9 && math.Abs(p.Z-1.25) > 1e-9
+			return d > 0 && p.Z >= -0.5 && p.Z <= 1.25, !(math.Abs(d) <= 1e-9) && !(math.Abs(p.Z+0.5) <= 1e-9) && !(math.Abs(p.Z-1.25) <= 1e-9)
 		})
 		for _, ax := range []c3{{Z: 1}, {X: 1, Y: 1}, {X: 0.3, Y: -0.2, Z: 0.9}, {Y: -2}} {
 			ax := ax
@@ -340,7 +340,7 @@ func derived3(full bool) []leaf3 {
 				x := p.Sub(u.Scale(y)).Norm()
 				// documented: the union of both reflections of the 2D solid is used
 				d1, d2 := s2.SDF(model2d.XY(x, y)), s2.SDF(model2d.XY(-x, y))
-				return d1 > 0 || d2 > 0, math.Abs(d1) > 1e-9 && math.Abs(d2) > 1e-9
+				return d1 > 0 || d2 > 0, !(math.Abs(d1) <= 1e-9) && !(math.Abs(d2) <= 1e-9)
 			})
 		}
 	}
@@ -348,7 +348,7 @@ func derived3(full bool) []leaf3 {
 	negRect := model2d.NewRect(model2d.XY(-2, -0.5), model2d.XY(-1, 1))
 	add("RevolveSolid(Rect on the negative side x in [-2,-1], axis=Z)", model3d.RevolveSolid(negRect, model3d.Z(1)), func(p c3) (bool, bool) {
 		x, y := math.Hypot(p.X, p.Y), p.Z
-		return x > 1 && x < 2 && y > -0.5 && y < 1, math.Abs(x-1) > 1e-9 && math.Abs(x-2) > 1e-9 && math.Abs(y+0.5) > 1e-9 && math.Abs(y-1) > 1e-9
+		return x > 1 && x < 2 && y > -0.5 && y < 1, !(math.Abs(x-1) <= 1e-9) && !(math.Abs(x-2) <= 1e-9) && !(math.Abs(y+0.5) <= 1e-9) && !(math.Abs(y-1) <= 1e-9)
 	})
 
 	// toolbox parts
@@ -364,14 +364,14 @@ func derived3(full bool) []leaf3 {
 			add(fmt.Sprintf("LineJoin(0.3,%v-%v)", p1, p2), toolbox3d.LineJoin(0.3, model3d.NewSegment(p1, p2), model3d.NewSegment(p2, model3d.XYZ(0, 0, 0))), func(p c3) (bool, bool) {
 				s1, s2 := model3d.NewSegment(p1, p2), model3d.NewSegment(p2, model3d.XYZ(0, 0, 0))
 				d := math.Min(s1.Dist(p), s2.Dist(p))
-				return d < 0.3, math.Abs(d-0.3) > 1e-9
+				return d < 0.3, !(math.Abs(d-0.3) <= 1e-9)
 			})
 			l1ref := func(p c3) (bool, bool) {
 				s1 := model3d.NewSegment(p1, p2)
 				// inside if within L1 distance of an end point (ball) - a subset of the definition that is cheap to state
 				d := math.Min(p.L1Dist(p1), p.L1Dist(p2))
 				_ = s1
-				return d < 0.3, math.Abs(d-0.3) > 1e-9
+				return d < 0.3, !(math.Abs(d-0.3) <= 1e-9)
 			}
 			add(fmt.Sprintf("L1LineJoin(0.3,%v-%v)", p1, p2), toolbox3d.L1LineJoin(0.3, model3d.NewSegment(p1, p2)), l1ref)
 			add(fmt.Sprintf("TriangularPolygon(0.2,closed,%v,%v,origin)", p1, p2), toolbox3d.TriangularPolygon(0.2, true, p1, p2, model3d.XYZ(0, 0, 0)), nil)
@@ -385,7 +385,7 @@ func derived3(full bool) []leaf3 {
 				d := p.Sub(p1)
 				z := d.Dot(u)
 				rho := d.Sub(u.Scale(z)).Norm()
-				return rho < root*0.95 && z > 0 && z < l, math.Abs(z) > 1e-9 && math.Abs(z-l) > 1e-9
+				return rho < root*0.95 && z > 0 && z < l, !(math.Abs(z) <= 1e-9) && !(math.Abs(z-l) <= 1e-9)
 			}
 			add(fmt.Sprintf("SpurGear(%v,%v)", p1, p2), &toolbox3d.SpurGear{P1: p1, P2: p2, Profile: gp}, gearRef)
 			add(fmt.Sprintf("HelicalGear(%v,%v,0.3)", p1, p2), &toolbox3d.HelicalGear{P1: p1, P2: p2, Profile: gp, Angle: 0.3}, gearRef)
@@ -393,7 +393,7 @@ func derived3(full bool) []leaf3 {
 	}
 	add("TriangularBall(0.5,(1,2,3))", toolbox3d.TriangularBall(0.5, model3d.XYZ(1, 2, 3)), func(p c3) (bool, bool) {
 		d := p.L1Dist(model3d.XYZ(1, 2, 3))
-		return d < 0.5, math.Abs(d-0.5) > 1e-9
+		return d < 0.5, !(math.Abs(d-0.5) <= 1e-9)
 	})
 	inner := &model3d.Sphere{Center: model3d.XYZ(0, 0, 1), Radius: 1}
 	add("Ramp(sphere,(0,0,0)->(0,0,2))", &toolbox3d.Ramp{Solid: inner, P1: model3d.XYZ(0, 0, 0), P2: model3d.XYZ(0, 0, 2)}, nil)
@@ -405,17 +405,17 @@ func derived3(full bool) []leaf3 {
 			add(fmt.Sprintf("ClampAxis(sphere(0,0,1;1),axis%d,%g,%g)", axis, cl[0], cl[1]), toolbox3d.ClampAxis(inner, toolbox3d.Axis(axis), cl[0], cl[1]), func(p c3) (bool, bool) {
 				v := p.Array()[axis]
 				d := 1 - p.Dist(inner.Center)
-				return d > 0 && v >= cl[0] && v <= cl[1], math.Abs(d) > 1e-9 && math.Abs(v-cl[0]) > 1e-9 && math.Abs(v-cl[1]) > 1e-9
+				return d > 0 && v >= cl[0] && v <= cl[1], !(math.Abs(d) <= 1e-9) && !(math.Abs(v-cl[0]) <= 1e-9) && !(math.Abs(v-cl[1]) <= 1e-9)
 			})
 		}
 	}
 	add("ClampZMin(sphere,0.5)", toolbox3d.ClampZMin(inner, 0.5), func(p c3) (bool, bool) {
 		d := 1 - p.Dist(inner.Center)
-		return d > 0 && p.Z >= 0.5, math.Abs(d) > 1e-9 && math.Abs(p.Z-0.5) > 1e-9
+		return d > 0 && p.Z >= 0.5, !(math.Abs(d) <= 1e-9) && !(math.Abs(p.Z-0.5) <= 1e-9)
 	})
 	add("ClampXMax(sphere,-0.25)", toolbox3d.ClampXMax(inner, -0.25), func(p c3) (bool, bool) {
 		d := 1 - p.Dist(inner.Center)
-		return d > 0 && p.X <= -0.25, math.Abs(d) > 1e-9 && math.Abs(p.X+0.25) > 1e-9
+		return d > 0 && p.X <= -0.25, !(math.Abs(d) <= 1e-9) && !(math.Abs(p.X+0.25) <= 1e-9)
 	})
 	hm := toolbox3d.NewHeightMap(model2d.XY(-1, -0.5), model2d.XY(1, 1), 16)
 	hm.AddSphere(model2d.XY(0.2, 0.1), 0.5)
@@ -455,9 +455,9 @@ func teardropRef(p1, p2 c3, rad float64) refFn {
 		d := p.Sub(p1)
 		x, y, z := d.Dot(xv), d.Dot(yv), d.Dot(zv)
 		if z < 0 || z > length {
-			return false, math.Abs(z) > 1e-9 && math.Abs(z-length) > 1e-9
+			return false, !(math.Abs(z) <= 1e-9) && !(math.Abs(z-length) <= 1e-9)
 		}
-		sure := math.Abs(z) > 1e-9 && math.Abs(z-length) > 1e-9
+		sure := !(math.Abs(z) <= 1e-9) && !(math.Abs(z-length) <= 1e-9)
 		rr := math.Hypot(x, y)
 		if math.Abs(rr-rad) < 1e-9 {
 			sure = false
@@ -641,11 +641,11 @@ func smooth3(full bool) []leaf3 {
 				rf := func(p c3) (bool, bool) {
 					d1, d2 := a.SDF(p), b.SDF(p)
 					if d1 > 0 || d2 > 0 {
-						return true, math.Abs(d1) > 1e-9 && math.Abs(d2) > 1e-9
+						return true, !(math.Abs(d1) <= 1e-9) && !(math.Abs(d2) <= 1e-9)
 					}
 					e1, e2 := math.Max(0, d1+rad), math.Max(0, d2+rad)
 					v := e1*e1 + e2*e2 - rad*rad
-					return v > 0, math.Abs(v) > 1e-9
+					return v > 0, !(math.Abs(v) <= 1e-9)
 				}
 				out = append(out, leaf3{fmt.Sprintf("SmoothJoin(%g,pool%d,pool%d)", rad, i, j), "SmoothJoin", model3d.SmoothJoin(rad, a, b), rf})
 				out = append(out, leaf3{fmt.Sprintf("SmoothJoinV2(%g,pool%d,pool%d)", rad, i, j), "SmoothJoinV2", model3d.SmoothJoinV2(rad, a, b), nil})
@@ -756,7 +756,7 @@ func leaves2() []leaf2 {
 	var out []leaf2
 	add := func(name string, s model2d.Solid, rf ref2) { out = append(out, leaf2{name, fam(name), s, rf}) }
 	sref := func(f func(c2) float64, thr float64) ref2 {
-		return func(p c2) (bool, bool) { d := f(p); return d > thr, math.Abs(d-thr) > 1e-9 }
+		return func(p c2) (bool, bool) { d := f(p); return d > thr, !(math.Abs(d-thr) <= 1e-9) }
 	}
 	for _, s := range ref.Shapes2() {
 		s := s
@@ -767,7 +767,7 @@ func leaves2() []leaf2 {
 		add("NewColliderSolidInset("+s.Name+",-0.2)", model2d.NewColliderSolidInset(o, -0.2), sref(s.SDF, -0.2))
 		add("NewColliderSolidHollow("+s.Name+",0.15)", model2d.NewColliderSolidHollow(o, 0.15), func(p c2) (bool, bool) {
 			d := math.Abs(s.SDF(p))
-			return d < 0.15, math.Abs(d-0.15) > 1e-9
+			return d < 0.15, !(math.Abs(d-0.15) <= 1e-9)
 		})
 		add("SDFToSolid("+s.Name+",0.3)", model2d.SDFToSolid(o, 0.3), sref(s.SDF, -0.3))
 		add("SDFToSolid("+s.Name+",-0.05)", model2d.SDFToSolid(o, -0.05), sref(s.SDF, 0.05))
@@ -778,7 +778,7 @@ func leaves2() []leaf2 {
 			{"Matrix2", &model2d.Matrix2Transform{Matrix: &model2d.Matrix2{2, 0.3, -0.4, 1.5}}}, {"Rotation(0.7)", model2d.Rotation(0.7)},
 			{"Joined(Rotation,VecScale)", model2d.JoinedTransform{model2d.Rotation(2.2), &model2d.VecScale{Scale: model2d.XY(0.5, -3)}}}} {
 			inv := t.t.Inverse()
-			add("TransformSolid("+t.n+", "+s.Name+")", model2d.TransformSolid(t.t, o), func(p c2) (bool, bool) { d := s.SDF(inv.Apply(p)); return d > 0, math.Abs(d) > 1e-9 })
+			add("TransformSolid("+t.n+", "+s.Name+")", model2d.TransformSolid(t.t, o), func(p c2) (bool, bool) { d := s.SDF(inv.Apply(p)); return d > 0, !(math.Abs(d) <= 1e-9) })
 		}
 		mb := model2d.SDFToMetaball(o)
 		for _, rt := range []float64{0.05, 0.5} {
@@ -786,12 +786,12 @@ func leaves2() []leaf2 {
 			neg := model2d.VecScaleMetaball(mb, model2d.XY(-3, 0.5))
 			add(fmt.Sprintf("MetaballSolid(nil,%g,%s vecscaled(-3,0.5))", rt, s.Name), model2d.MetaballSolid(nil, rt, neg), func(p c2) (bool, bool) {
 				sum := model2d.QuarticMetaballFalloffFunc(neg.MetaballField(p))
-				return sum > thr, math.Abs(sum-thr) > 1e-9*thr
+				return sum > thr, !(math.Abs(sum-thr) <= 1e-9*thr)
 			})
 			vs := model2d.VecScaleMetaball(mb, model2d.XY(0.4, 2))
 			add(fmt.Sprintf("MetaballSolid(nil,%g,%s + vecscaled)", rt, s.Name), model2d.MetaballSolid(nil, rt, mb, vs), func(p c2) (bool, bool) {
 				sum := model2d.QuarticMetaballFalloffFunc(mb.MetaballField(p)) + model2d.QuarticMetaballFalloffFunc(vs.MetaballField(p))
-				return sum > thr, math.Abs(sum-thr) > 1e-9*thr
+				return sum > thr, !(math.Abs(sum-thr) <= 1e-9*thr)
 			})
 		}
 	}
@@ -822,7 +822,7 @@ func leaves2() []leaf2 {
 				}
 				return model3d.XYZ(p.X, p.Y, v)
 			}
-			rf := func(p c2) (bool, bool) { d := s.SDF(embed(p)); return d > 0, math.Abs(d) > 1e-9 }
+			rf := func(p c2) (bool, bool) { d := s.SDF(embed(p)); return d > 0, !(math.Abs(d) <= 1e-9) }
 			add(fmt.Sprintf("CrossSectionSolid(%s,axis%d)", s.Name, axis), model3d.CrossSectionSolid(s.Obj.(model3d.Solid), axis, v), rf)
 			add(fmt.Sprintf("SliceSolid(%s,axis%d)", s.Name, axis), toolbox3d.SliceSolid(s.Obj.(model3d.Solid), toolbox3d.Axis(axis), v), rf)
 		}
